@@ -331,7 +331,18 @@ def differential(ob, name, seed, mult=1):
             res["mismatch"].append("values differ on %r: %s" % (run["values"], d))
         for c, v in run["results"]:
             if not v:
-                res["clause_false"].append([c, run["values"], run["choices"]])
+                # a clause such as dot(P, Q) == 0 is evaluated on floats with a tolerance that cannot know the scale of
+                # the operands (1e-9 absolute against an exact zero): before the sample counts as a counterexample it
+                # is replayed with 1e-6 absolute / relative; what survives is not rounding noise
+                again = conc().ask({"op": "replay", "ob": name, "values": run["values"], "choices": run["choices"],
+                                    "tol": [1e-6, 1e-6]})
+                still = True
+                if again.get("ok"):
+                    still = any(c2 == c and not v2 for c2, v2 in again["runs"][0]["results"])
+                if still:
+                    res["clause_false"].append([c, run["values"], run["choices"]])
+                else:
+                    res.setdefault("float_noise", []).append(c)
     return res
 
 
